@@ -100,6 +100,7 @@ type pathState struct {
 	osFiles     map[*value]value
 	harnessRaces int
 	sleep       []TInfo
+	delays      int // cost of the schedule choices so far (delay-bounded exploration)
 	itemSleep   []TInfo
 	objIDs      map[interface{}]int
 	completed   bool
